@@ -12,6 +12,7 @@ import (
 	"path/filepath"
 	"sort"
 	"strconv"
+	"strings"
 
 	"golang.org/x/tools/go/ast/astutil"
 	"golang.org/x/tools/go/packages"
@@ -95,7 +96,7 @@ func (p *Parser) ParseFile(filename string, varPool *VarPool) (*MetaData, []*Bui
 	}
 
 	for _, f := range pkg.Syntax {
-		if f == nil {
+		if f == nil || p.isGeneratedOutput(f) {
 			continue
 		}
 
@@ -131,7 +132,7 @@ func (p *Parser) ParseFile(filename string, varPool *VarPool) (*MetaData, []*Bui
 	}
 
 	for _, f := range pkg.Syntax {
-		if f == nil {
+		if f == nil || p.isGeneratedOutput(f) {
 			continue
 		}
 
@@ -174,6 +175,24 @@ func (p *Parser) ParseFile(filename string, varPool *VarPool) (*MetaData, []*Bui
 	}
 
 	return metaData, builds, nil
+}
+
+// isGeneratedOutput reports whether the file is an output file of a previous
+// kessoku run (*_band.go with the generated-code header). Such files must not
+// influence name allocation, otherwise the output depends on leftovers.
+func (p *Parser) isGeneratedOutput(f *ast.File) bool {
+	if !ast.IsGenerated(f) {
+		return false
+	}
+
+	file := p.fset.File(f.Pos())
+	if file == nil {
+		return false
+	}
+
+	name := filepath.Base(file.Name())
+
+	return strings.HasSuffix(strings.TrimSuffix(name, filepath.Ext(name)), "_band")
 }
 
 // initializeSSA initializes SSA analysis for a file.
